@@ -19,6 +19,9 @@ class Ctx:
         self.root = root
         self.tier = tier
         self.repo = Repo(root)
+        from . import inline as _inl
+
+        _inl.set_repo(self.repo)
         self._cg = None
         self._gram = None
 
